@@ -43,12 +43,12 @@ func checkC09(r *harness.Run) harness.Coverage {
 		maxLen = 5
 	}
 	nums := univ.Js(`-1.5`, `-1`, `0`, `1`, `2`, `2.5`)
-	strs := univ.Js(`""`, `"a"`, `"b"`, `"ab"`, `"ba"`, `"é"`, `"日本"`, `"a😀"`, `"1"`, `"1.5"`, `"-2e1"`, `"x1"`)
+	strs := univ.Js(`""`, `"a"`, `"b"`, `"ab"`, `"ba"`, `"é"`, `"日本"`, `"a😀"`, `"1"`, `"1.5"`, `"-2e1"`, `"x1"`, `"x\ufffdy"`, `"\\u003c<&"`)
 	strs3 := univ.Js(`""`, `", "`, `"é"`)
 	numArrays := arraysOver(univ.Js(`-1`, `1`, `2`, `2.5`), maxLen)
 	strArrays := arraysOver(univ.Js(`""`, `"a"`, `"b"`, `"ab"`), maxLen)
 	uniArrays := arraysOver(univ.Js(`"é"`, `"z"`, `"日"`, `"😀"`, `"e"`), 2)
-	anys := univ.Js(`null`, `true`, `false`, `0`, `1`, `-0.5`, `"a"`, `""`, `"é\"\\"`, `[]`, `[1]`, `[[1]]`, `[null]`, `{}`, `{"a":1}`, `{"b":[1,{"c":null}]}`, `1e21`, `1e-7`, `[1.5,"x"]`)
+	anys := univ.Js(`null`, `true`, `false`, `0`, `1`, `-0.5`, `"a"`, `""`, `"é\"\\"`, `[]`, `[1]`, `[[1]]`, `[null]`, `{}`, `{"a":1}`, `{"b":[1,{"c":null}]}`, `1e21`, `1e-7`, `[1.5,"x"]`, `["lit \\u003c <", {"\\u0026": "&"}]`)
 	hetero := arraysOver(univ.Js(`null`, `1`, `"a"`, `[1]`, `{"a":1}`, `true`), 3)
 	// objects of equal size with different key sets, null under the extra key; nested
 	objElems := univ.Js(`{"a":null}`, `{"b":null}`, `{"a":null,"b":1}`, `{"b":1,"c":2}`, `{"a":1,"b":null}`, `{"a":{"a":null}}`, `{"a":{"b":null}}`, `[{"a":null}]`, `[{"b":null}]`, `{}`, `null`)
@@ -100,7 +100,9 @@ func checkC09(r *harness.Run) harness.Coverage {
 		{[]string{"sort_by(a, &k)", "max_by(a, &k)", "min_by(a, &k)", "sort_by(a, &t)", "max_by(a, &t)", "min_by(a, &t)",
 			"sort_by(a, &k)[*].t", "max_by(a, &k).t", "min_by(a, &k).t", "map(&k, a)", "map(&t, a)", "map(&nope, a)",
 			"sort_by(a, &to_string(k))[*].t", "max_by(a, &length(to_string(k))).t", "sort_by(a, &[k,t][0])[*].t", "sort_by(sort_by(a, &t), &k)[*].t",
-			"sort_by(a, &k) | [0].t", "reverse(sort_by(a, &k))[*].t"}, [][]interface{}{objArrays}},
+			"sort_by(a, &k) | [0].t", "reverse(sort_by(a, &k))[*].t",
+			// by-functions nested inside the expression reference of another by-function
+			"max_by(a, &max_by([k, t], &@)).t", "sort_by(a, &min_by([k, t], &@))[*].t", "map(&max_by([k, t], &@), a)", "min_by(a, &length(sort_by([k, t], &@))).t", "max_by(a, &sum(sort_by([t, k], &@))).t"}, [][]interface{}{objArrays}},
 	}
 	// larger arrays (a structured family, not exhaustive): lengths 13..64 with heavily tied keys,
 	// ascending / descending / periodic patterns — sorting code switches algorithm above ~12 elements
